@@ -226,7 +226,7 @@ RangeCases == { c \in { << "sign", v, m, e, b, DO >> : v \in { U(10), Ten(18) },
 \* full-size proofs (32 rings): two in quick
 BigCases ==
        { << "sign", U64Max, Zero, 0, 0, [DO EXCEPT !.ml = 3968, !.xl = 100] >>,
-         << "sign", I64Max, Zero, 5, 0, [DO EXCEPT !.ml = 100, !.g = 2] >> }
+         << "sign", I64Max, Zero, 0, 0, [DO EXCEPT !.ml = 100, !.g = 2] >> }
   \cup { << "sign", U64Max, Zero, 0, 0, [DO EXCEPT !.ml = 3969] >>, << "sign", I64Max, Zero, 0, 0, [DO EXCEPT !.ml = 4000] >>,
          << "sign", U64Max, Zero, 0, 0, [DO EXCEPT !.pl = -2] >>, << "sign", U64Max, Zero, 0, 0, [DO EXCEPT !.pl = 5133] >> }
   \cup (IF Thorough THEN { << "sign", v, m, e, b, DO >> : v \in { Pow2(62), Ten(18), Sub(U64Max, One) }, m \in { Zero }, e \in { 0, 4 }, b \in { 0, 33, 62 } }
